@@ -581,7 +581,7 @@ def strat_clean(tier):
 
 
 SUBS = [
-    Sub("clean", check_clean, strategy=strat_clean, quick=1000, thorough=18000, workers_quick=3,
+    Sub("clean", check_clean, strategy=strat_clean, quick=1500, thorough=18000, workers_quick=4,
         workers_thorough=16, budget_quick=50, budget_thorough=560),
 ]
 
